@@ -341,9 +341,14 @@ impl<'tcx> Cx<'tcx> {
                 v.push(("k", s("Or")));
                 v.push(("pats", J::Arr(pats.iter().map(|q| self.pat(th, q)).collect())));
             }
-            PatKind::Slice { .. } | PatKind::Array { .. } => {
+            PatKind::Slice { prefix, slice, suffix } | PatKind::Array { prefix, slice, suffix } => {
                 v.push(("k", s("SliceOrArray")));
-                v.push(("dbg", s(format!("{:?}", p.kind))));
+                v.push(("array", J::Bool(matches!(p.kind, PatKind::Array { .. }))));
+                v.push(("prefix", J::Arr(prefix.iter().map(|q| self.pat(th, q)).collect())));
+                if let Some(m) = slice {
+                    v.push(("slice", self.pat(th, m)));
+                }
+                v.push(("suffix", J::Arr(suffix.iter().map(|q| self.pat(th, q)).collect())));
             }
             PatKind::Guard { subpattern, condition } => {
                 v.push(("k", s("Guard")));
@@ -854,6 +859,35 @@ fn extract<'tcx>(tcx: TyCtxt<'tcx>, name: &str) -> J {
                     }
                 }
                 v.push(("items", J::Arr(items)));
+                // associated consts the impl inherits from the trait's defaults (`const LENGTH: u8 = size_of::<Self>() as u8`):
+                // evaluated at the impl's own arguments when these are concrete
+                if tcx.impl_opt_trait_ref(did).is_some() {
+                    use rustc_middle::ty::TypeVisitableExt;
+                    let tr = tcx.impl_trait_ref(did).instantiate_identity().skip_norm_wip();
+                    if tr.def_id.is_local() && !tr.args.has_non_region_param() {
+                        let own: Vec<_> = tcx.associated_items(did).in_definition_order().filter_map(|ai| ai.trait_item_def_id()).collect();
+                        for ti in tcx.associated_items(tr.def_id).in_definition_order() {
+                            if !matches!(ti.kind, ty::AssocKind::Const { .. }) || !tcx.defaultness(ti.def_id).has_value() || own.contains(&ti.def_id) {
+                                continue;
+                            }
+                            let env = ty::TypingEnv::fully_monomorphized();
+                            if let Ok(Some(inst)) = ty::Instance::try_resolve(tcx, env, ti.def_id, tr.args) {
+                                let cid = mir::interpret::GlobalId { instance: inst, promoted: None };
+                                if let Ok(cv) = tcx.const_eval_global_id(env, cid, tcx.def_span(did)) {
+                                    let t = tcx.type_of(ti.def_id).instantiate(tcx, tr.args).skip_norm_wip();
+                                    let self_ty = match cx.ty(tr.self_ty()) { J::Str(x) => x, _ => String::new() };
+                                    consts.push(o(vec![
+                                        ("path", s(format!("<{} as {}>::{}", self_ty, cx.path(tr.def_id), ti.name()))),
+                                        ("ty", cx.ty(t)),
+                                        ("vis", s("priv")),
+                                        ("value", cx.const_val_to_j(cv, t, ti.def_id)),
+                                        ("inherited_default", J::Bool(true)),
+                                    ]));
+                                }
+                            }
+                        }
+                    }
+                }
                 impls.push(o(v));
             }
             DefKind::Trait => {
